@@ -142,11 +142,11 @@ func main() {
 
 type rewriter struct {
 	chanNames map[string]bool
-	fset    *token.FileSet
-	rel     string
-	needVrt bool
-	changed bool
-	tmp     int
+	fset      *token.FileSet
+	rel       string
+	needVrt   bool
+	changed   bool
+	tmp       int
 }
 
 func rewriteFile(path, rel string) ([]byte, bool, error) {
@@ -262,7 +262,7 @@ func rewriteFile(path, rel string) ([]byte, bool, error) {
 					key := id.Name + "." + se.Sel.Name
 					if pkgImported[id.Name] {
 						switch key {
-						case "context.WithTimeout", "context.WithDeadline", "time.Sleep", "time.After", "time.NewTimer", "time.AfterFunc":
+						case "context.WithCancel", "context.WithTimeout", "context.WithDeadline", "time.Sleep", "time.After", "time.NewTimer", "time.AfterFunc":
 							b.Fun = sel("vrt", se.Sel.Name)
 							rw.needVrt, rw.changed = true, true
 							rep.Rewrites[key]++
@@ -352,6 +352,30 @@ func rewriteFile(path, rel string) ([]byte, bool, error) {
 		if g, ok := n.(*ast.GoStmt); ok {
 			rw.unmodelled(g.Pos(), "go statement (unexpected position)")
 		}
+		return true
+	})
+	// channels made by the code under test are registered with the scheduler
+	// (vrt.MakeChan(make(chan T, n))): nothing outside the task world operates on them
+	wrapped := map[*ast.CallExpr]bool{}
+	ast.Inspect(f, func(n ast.Node) bool {
+		c, ok := n.(*ast.CallExpr)
+		if !ok || wrapped[c] || len(c.Args) == 0 {
+			return true
+		}
+		id, ok := c.Fun.(*ast.Ident)
+		if !ok || id.Name != "make" || id.Obj != nil {
+			return true
+		}
+		if _, ok := c.Args[0].(*ast.ChanType); !ok {
+			return true
+		}
+		inner := *c
+		wrapped[&inner] = true
+		c.Fun = sel("vrt", "MakeChan")
+		c.Args = []ast.Expr{&inner}
+		c.Ellipsis = token.NoPos
+		rw.needVrt, rw.changed = true, true
+		rep.Rewrites["make(chan)"]++
 		return true
 	})
 	if !rw.changed {
@@ -474,7 +498,7 @@ func (rw *rewriter) goStmt(g *ast.GoStmt) ast.Stmt {
 		Type: &ast.FuncType{Params: &ast.FieldList{}},
 		Body: &ast.BlockStmt{List: []ast.Stmt{&ast.ExprStmt{X: inner}}},
 	}
-	goCall := &ast.ExprStmt{X: &ast.CallExpr{Fun: sel("vrt", "Go"), Args: []ast.Expr{wrapper}}}
+	goCall := &ast.ExprStmt{X: &ast.CallExpr{Fun: sel("vrt", "GoLib"), Args: []ast.Expr{wrapper}}}
 	rw.needVrt, rw.changed = true, true
 	rep.Rewrites["go"]++
 	// the FuncLit body may itself contain constructs to rewrite; ast.Inspect will
